@@ -5,12 +5,13 @@ EXTENDS KeyKeeper
 MCModeOf(r) == CASE r = "r0" -> "disabled" [] r = "r1" -> "audit" [] r = "r2" -> "enforce" [] OTHER -> "audit"
 
 Doc(v, c, h, w, i, g) == [ver |-> v, chan |-> c, hasRules |-> h, rules |-> [ws |-> w, imds |-> i, ga |-> g]]
-It(r) == [id |-> r, mode |-> MCModeOf(r)]
+It(r) == [id |-> r, mode |-> MCModeOf(r), c |-> "c1"]
 
 \* starting documents: channel off in either protocol version, and on with some rules
 DocsSmall == {Doc("1.0", "disabled", FALSE, NoItem, NoItem, NoItem),
               Doc("2.0", "enabled", TRUE, It("r1"), NoItem, NoItem)}
 DocsOne == {Doc("2.0", "enabled", TRUE, It("r1"), It("r1"), NoItem)}
 DocsV1 == {Doc("1.0", "wireserver", FALSE, NoItem, NoItem, NoItem)}
+DocsRules == {Doc("2.0", "enabled", TRUE, NoItem, NoItem, NoItem), Doc("2.0", "enabled", TRUE, It("r1"), NoItem, NoItem)}
 DocsEmptyId == {Doc("2.0", "enabled", TRUE, NoItem, NoItem, NoItem)}
 =============================================================================
